@@ -8,7 +8,7 @@ from vlib.harness import Violation, run_given
 from vlib import ref_cone as rc, gen_cone as gc, judge, runlp
 from checks import c03
 
-from cvxopt import matrix, spmatrix, sparse, solvers, misc
+from cvxopt import matrix, spmatrix, sparse, solvers, misc, blas
 
 OPTS = {"show_progress": False}
 KNOWN = {}
@@ -423,6 +423,20 @@ def restore_oracle(case, stats=None):
     pr = c07.restore_problem(case)
     F, cm, Gm, hm, dims, n = pr["F"], pr["cm"], pr["Gm"], pr["hm"], pr["dims"], pr["n"]
 
+    # every other instance is run with a user-defined vector type for y (the documented ynewcopy/ydot/yaxpy/yscal
+    # arguments, A given as a function): the solver may then touch y only through these functions
+    custom_y = (case["n"] + case["m"] + case["lrows"] + int(case["K"])) % 2 == 1
+
+    class YV(object):
+        def __init__(self, m_):
+            self.m = m_
+
+    def fA(x, y, alpha=1.0, beta=0.0, trans="N"):
+        # y := alpha*A*x + beta*y (trans = 'N', y of the user's type) resp. y := alpha*A'*x + beta*y ('T', x of the user's type)
+        blas.scal(beta, y.m if trans == "N" else y)          # A has no rows
+    ykw = dict(A=fA, b=YV(matrix(0.0, (0, 1))), ynewcopy=lambda y: YV(matrix(y.m)), ydot=lambda u, v: blas.dot(u.m, v.m),
+               yaxpy=lambda u, v, alpha=1.0: blas.axpy(u.m, v.m, alpha=alpha), yscal=lambda alpha, y: blas.scal(alpha, y.m)) if custom_y else {}
+
     def run(fail):
         cnt = [0]
         factor = misc.kkt_ldl(Gm, dims, matrix(0.0, (0, n)), 1)
@@ -433,9 +447,12 @@ def restore_oracle(case, stats=None):
             cnt[0] += 1
             if k in fail:
                 raise ArithmeticError("injected failure in factorization %d" % k)
-            return factor(W, H, Df)
+            f3 = factor(W, H, Df)
+            if custom_y:
+                return lambda bx, by, bz: f3(bx, by.m, bz)
+            return f3
         try:
-            return solvers.cpl(cm, F, Gm, hm, dims, kktsolver=kktsolver, options={"show_progress": False}), cnt[0]
+            return solvers.cpl(cm, F, Gm, hm, dims, kktsolver=kktsolver, options={"show_progress": False}, **ykw), cnt[0]
         except Exception as e:        # noqa: judged below
             return e, cnt[0]
     base, nfac = run(())
@@ -445,6 +462,12 @@ def restore_oracle(case, stats=None):
         return
     doubles = 0
     for k in range(1, min(nfac, 30)):
+        if custom_y:
+            # with a user-defined y every single failure is judged here as well (the 'faults' part uses matrices)
+            sol1, _ = run((k,))
+            if isinstance(sol1, Exception):
+                raise Violation("cpl with a user-defined vector type for y: ArithmeticError injected into factorization #%d -> %s escaped "
+                                "from the solver: %s" % (k, type(sol1).__name__, sol1))
         sol, reached = run((k, k + 1))
         if reached <= k + 1:
             continue                     # no retry: the single failure is judged by the 'faults' part
